@@ -80,8 +80,15 @@ fn pump(mut from: TcpStream, mut to: TcpStream, sizes: Vec<usize>, policy: Polic
 }
 
 impl Tap {
-    pub fn start(listen_port: u16, server_port: u16, policy: Policy) -> Tap {
-        let l = TcpListener::bind(SocketAddrV4::new(Ipv4Addr::LOCALHOST, listen_port)).expect("harness: tap bind");
+    /// A listener for a tap, bound before the client is configured with its port (so nobody else can take the port).
+    pub fn reserve() -> (TcpListener, u16) {
+        let l = TcpListener::bind(SocketAddrV4::new(Ipv4Addr::LOCALHOST, 0)).expect("harness: tap bind");
+        let p = l.local_addr().expect("harness: local_addr").port();
+        (l, p)
+    }
+
+    pub fn start(l: TcpListener, server_port: u16, policy: Policy) -> Tap {
+        let listen_port = l.local_addr().map(|a| a.port()).unwrap_or(0);
         l.set_nonblocking(true).ok();
         let stop = Arc::new(AtomicBool::new(false));
         let cut = Arc::new(AtomicBool::new(false));
